@@ -200,6 +200,20 @@ CHECKS["C16"] = dict(
     note=TRUST + "solve_poisson_bvp/ivp, splines, harmonics, nnls are not proved (assumed inside the composition proof, bounded natively); "
          "coulomb_potential is the potential of its normalised Gaussians (C17).",
     technique="contract-based deductive verification of the composition (AST symbolic execution with recording callee contracts, loop contract, z3); bounded closed-form oracles for the numerical solvers as labelled stand-in")
+CHECKS["C08"] = dict(
+    category="proof",
+    text="generate_real_spherical_harmonics for a symbolic maximum degree, symbolic number of points and angles: two nested loop contracts "
+         "(functional cut points over the Legendre work array, the running factorial factor, the row cursor and the output) show that row l^2 "
+         "(m = 0), l^2+2m-1 (cos) and l^2+2m (sin) hold sqrt((2l+1)/4pi) [sqrt 2 / F(l,m)] P_l^m(phi) {cos, sin}(m theta) with P and F defined by "
+         "the standard recurrences: the code computes exactly that sequence in the documented order and normalisation, every row written once, "
+         "(l_max+1)^2 rows. convert_cart_to_sph: radius, azimuth, polar angle relative to the centre (0 at the centre), validation, and the "
+         "lemma that these formulas invert the spherical parametrisation. Values against a 50-digit oracle (incl. poles, angles outside the "
+         "principal range), agreement of both implementations, the addition theorem, derivatives and solid harmonics are decided by the bounded "
+         "layer only; recorded finding: |sin phi|^m in the scipy variant and the phi-derivative.",
+    design="8/C08",
+    note=TRUST + "that the three-term/diagonal recurrences generate the associated Legendre functions and F(l,m)^2 = (l+m)!/(l-m)! is a textbook fact, "
+         "not proved; sin/cos/sqrt/arctan2/arccos by their defining facts; derivative routine, scipy variant and solid_harmonics bounded only.",
+    technique="contract-based deductive verification: AST symbolic execution with nested loop contracts (functional cut points), lemma chaining between invariant conjuncts, z3; bounded multiprecision oracle as labelled stand-in")
 BOUNDED_ONLY = {
     "C09": ("8/C09", "band-limited decomposition/interpolation on atomic grids: angular integration, radial-component splines through knots, interpolant reproduces grid values, derivative self-consistency, polynomial reproduction, molecular interpolation"),
     "C07": ("8/C07", "molecular grid = weighted concatenation of atomic grids: index table, segments, weights = atweights x aim, views with store on/off, fan-out of from_size/from_preset/from_pruned against hand-built grids, default radial grids, end-to-end 1% clause on presets"),
